@@ -56,37 +56,46 @@ func verifCheckPresent(f *countingBloomFilter, item string, mult int64) {
 func VerifC36_history() {
 	red := &verifRedis{nowMs: 1}
 	verifCountingState(red)
-	f, _ := verifCounting(red)
+	f, sc := verifCounting(red)
+	// one reply may be lost after the server executed the command (see verifScriptClient.lostReplies)
+	sc.lostReplies = int(verifParam("lost_replies", 1))
 	ctx := context.Background()
 	var mx, my int64
 	steps := int(verifParam("steps", 3))
+	// the call's effect has been applied exactly once whether or not its reply arrived
+	applied := func(err error) {
+		if err != nil {
+			verifAssert(err == verifErrTransport, "only the injected fault may fail a call")
+			verifReach("lostreply")
+		}
+	}
 	for s := 0; s < steps; s++ {
 		switch verifChoose(7) {
 		case 0:
-			verifAssert(f.Add(ctx, "x") == nil, "add succeeds")
+			applied(f.Add(ctx, "x"))
 			mx++
 		case 1:
-			verifAssert(f.AddMulti(ctx, []string{"x", "y"}) == nil, "add succeeds")
+			applied(f.AddMulti(ctx, []string{"x", "y"}))
 			mx++
 			my++
 		case 2:
-			verifAssert(f.AddMulti(ctx, []string{"x", "x"}) == nil, "add succeeds")
+			applied(f.AddMulti(ctx, []string{"x", "x"}))
 			mx += 2
 		case 3:
-			verifAssert(f.Add(ctx, "y") == nil, "add succeeds")
+			applied(f.Add(ctx, "y"))
 			my++
 		case 4:
 			if mx < 1 {
 				verifAssume(false)
 			}
-			verifAssert(f.Remove(ctx, "x") == nil, "remove succeeds")
+			applied(f.Remove(ctx, "x"))
 			mx--
 			verifReach("removed")
 		case 5:
 			if mx < 1 || my < 1 {
 				verifAssume(false)
 			}
-			verifAssert(f.RemoveMulti(ctx, []string{"y", "x"}) == nil, "remove succeeds")
+			applied(f.RemoveMulti(ctx, []string{"y", "x"}))
 			mx--
 			my--
 			verifReach("removed")
@@ -94,12 +103,13 @@ func VerifC36_history() {
 			if mx < 2 {
 				verifAssume(false)
 			}
-			verifAssert(f.RemoveMulti(ctx, []string{"x", "x"}) == nil, "remove succeeds")
+			applied(f.RemoveMulti(ctx, []string{"x", "x"}))
 			mx -= 2
 			verifReach("removed")
 		}
 		verifNoNegativeCounter(red)
 	}
+	sc.lostReplies = 0
 	verifCheckPresent(f, "x", mx)
 	verifCheckPresent(f, "y", my)
 	res, err := f.ExistsMulti(ctx, []string{"y", "x"})
